@@ -37,9 +37,18 @@ class FixAssertTupleTransform(LibcstResultTransformer, NameResolutionMixin):
 
     def _make_asserts(self, node: cst.Assert) -> List[cst.SimpleStatementLine]:
         return [
-            cst.SimpleStatementLine(body=[cst.Assert(test=element.value, msg=node.msg)])
+            cst.SimpleStatementLine(
+                body=[cst.Assert(test=self._standalone(element.value), msg=node.msg)]
+            )
             for element in node.test.elements
         ]
+
+    @staticmethod
+    def _standalone(expr: cst.BaseExpression) -> cst.BaseExpression:
+        """An element written over several lines relied on the tuple's parentheses."""
+        if not expr.lpar and "\n" in cst.Module([]).code_for_node(expr):
+            return expr.with_changes(lpar=[cst.LeftParen()], rpar=[cst.RightParen()])
+        return expr
 
     def _report_new_lines(
         self, original_node: cst.SimpleStatementLine, newlines_count: int
